@@ -32,3 +32,15 @@ package database
 //@   requires q != nil
 //@   ensures (ret1 == sentinel("pgx.ErrNoRows")) <==> !rowExists(eon)
 //@   ensures ret1 == nil ==> (rowExists(eon) && ret0.Value == rowValue(eon) && ret0.Age.Int64 == rowAge(eon) && ret0.Age.Valid == rowAgeValid(eon))
+//@
+//@ // C15: ghost traces of the rollback writes of the sequencer syncer
+//@ evdecl delTxSub(Int)
+//@ evdecl setTxSynced(Int)
+//@ func (*Queries).DeleteTransactionSubmittedEventsFromBlockNumber
+//@   trusted
+//@   requires q != nil
+//@   event delTxSub(blockNumber)
+//@ func (*Queries).SetTransactionSubmittedEventsSyncedUntil
+//@   trusted
+//@   requires q != nil
+//@   event setTxSynced(arg.BlockNumber)
